@@ -159,9 +159,15 @@ impl ZoneSurfFilter {
         let mut map: HashMap<(String, String), Vec<(u32, Vec<Vec<u8>>)>> = HashMap::new();
 
         for zp in zone_plans {
+            // Every field that occurs in some event of the zone: an optional field may be absent
+            // from the first event and present in a later one.
             let mut dynamic_keys: Vec<String> = Vec::new();
-            if let Some(event) = zp.events.get(0) {
-                dynamic_keys.extend(event.payload.keys().cloned());
+            for event in &zp.events {
+                for key in event.payload.keys() {
+                    if !dynamic_keys.contains(key) {
+                        dynamic_keys.push(key.clone());
+                    }
+                }
             }
             for key in dynamic_keys {
                 if !allowed_fields.contains(&key) {
